@@ -43,8 +43,9 @@ IPow(x, k) == IF k = 0 THEN 1 ELSE x * IPow(x, k - 1)
 
 Abs(n) == IF n < 0 THEN -n ELSE n
 
-RECURSIVE Gcd(_, _)
-Gcd(a, b) == IF b = 0 THEN Abs(a) ELSE Gcd(b, a % b)
+RECURSIVE GcdNat(_, _)
+GcdNat(a, b) == IF b = 0 THEN a ELSE GcdNat(b, a % b)
+Gcd(a, b) == GcdNat(Abs(a), Abs(b))
 
 (* rational scalars *)
 Q(re, im, d) == [n |-> <<re, im>>, d |-> d]
@@ -82,6 +83,20 @@ Zero(r, c) == MkMat(r, c, LAMBDA i, j: CZ)
 Eye(n) == MkMat(n, n, LAMBDA i, j: IF i = j THEN C1 ELSE CZ)
 At(M, i, j) == M.e[i][j]
 
+\* cancel the common factor of all numerators and the denominator (keeps 32-bit integers small)
+RECURSIVE GcdRow(_, _)
+GcdRow(row, acc) ==
+    IF row = <<>> \/ acc = 1 THEN acc
+    ELSE GcdRow(Tail(row), Gcd(Gcd(acc, Head(row)[1]), Head(row)[2]))
+RECURSIVE GcdRows(_, _)
+GcdRows(rows, acc) ==
+    IF rows = <<>> \/ acc = 1 THEN acc ELSE GcdRows(Tail(rows), GcdRow(Head(rows), acc))
+MNormalize(M) ==
+    LET g == GcdRows(M.e, M.d) IN
+    IF g <= 1 THEN M
+    ELSE MkMatD(M.r, M.c, M.d \div g, LAMBDA i, j: <<M.e[i][j][1] \div g, M.e[i][j][2] \div g>>)
+
+
 MAdd(A, B) ==
     IF A.d = B.d
     THEN MkMatD(A.r, A.c, A.d, LAMBDA i, j: CAdd(A.e[i][j], B.e[i][j]))
@@ -89,7 +104,9 @@ MAdd(A, B) ==
                 LAMBDA i, j: CAdd(CScaleI(B.d, A.e[i][j]), CScaleI(A.d, B.e[i][j])))
 MNeg(A) == MkMatD(A.r, A.c, A.d, LAMBDA i, j: CNeg(A.e[i][j]))
 MSub(A, B) == MAdd(A, MNeg(B))
-MScale(s, A) == MkMatD(A.r, A.c, A.d * s.d, LAMBDA i, j: CMul(s.n, A.e[i][j]))
+MScale(s, A) ==
+    IF s.d = 1 /\ A.d = 1 THEN MkMatD(A.r, A.c, 1, LAMBDA i, j: CMul(s.n, A.e[i][j]))
+    ELSE MNormalize(MkMatD(A.r, A.c, A.d * s.d, LAMBDA i, j: CMul(s.n, A.e[i][j])))
 MMul(A, B) ==
     MkMatD(A.r, B.c, A.d * B.d,
            LAMBDA i, j: CSumSeq([k \in 1..A.c |-> CMul(A.e[i][k], B.e[k][j])]))
@@ -166,7 +183,10 @@ AdjN(M) ==
 MInverse(M) ==
     LET dn == DetN(M)
         a == AdjN(M)
-    IN MkMatD(M.r, M.c, CAbs2(dn), LAMBDA i, j: CScaleI(M.d, CMul(CConj(dn), a.e[i][j])))
+    IN IF dn[2] = 0
+       THEN MNormalize(MkMatD(M.r, M.c, Abs(dn[1]),
+                              LAMBDA i, j: CScaleI(IF dn[1] < 0 THEN -M.d ELSE M.d, a.e[i][j])))
+       ELSE MNormalize(MkMatD(M.r, M.c, CAbs2(dn), LAMBDA i, j: CScaleI(M.d, CMul(CConj(dn), a.e[i][j]))))
 MIsSingular(M) == DetN(M) = CZ
 
 ---------------------------------------------------------------------------
